@@ -42,6 +42,7 @@ VARIABLES now,        \* virtual clock W
           sched,      \* [stream -> amt] scheduled tokens
           pc,         \* [stream -> "idle" | "sleep" | "gone"]
           dead,       \* [stream -> its transfer failed] (it raises at its next check)
+          failAt,     \* [stream -> time at which its transfer failed, -1 = alive]
           wake,       \* [stream -> W at which its sleep ends]
           seen,       \* [stream -> _bytes_seen]
           pend,       \* [stream -> size of the read that is blocked]
@@ -49,13 +50,14 @@ VARIABLES now,        \* virtual clock W
           waits,      \* sequence of [s, w, retry, queued] : refusals (history)
           last
 
-vars == <<now, lastW, ub, totalWait, sched, pc, dead, wake, seen, pend, hist, waits, last>>
+vars == <<now, lastW, ub, totalWait, sched, pc, dead, failAt, wake, seen, pend, hist, waits, last>>
 
 Init ==
     /\ now = 0 /\ lastW = -1 /\ ub = 0 /\ totalWait = 0
     /\ sched = <<>>
     /\ pc = [s \in Streams |-> "idle"]
     /\ dead = [s \in Streams |-> FALSE]
+    /\ failAt = [s \in Streams |-> -1]
     /\ wake = [s \in Streams |-> 0]
     /\ seen = [s \in Streams |-> 0]
     /\ pend = [s \in Streams |-> 0]
@@ -94,7 +96,7 @@ Pass(s, amt) ==        \* (also for a failed transfer: the error is only raised 
     /\ seen' = [seen EXCEPT ![s] = @ + amt]
     /\ Hist(s, amt, "pass")
     /\ last' = [op |-> "read", s |-> s, amt |-> amt, res |-> "pass", retry |-> 0]
-    /\ UNCHANGED <<now, lastW, ub, totalWait, sched, pc, dead, wake, pend, waits>>
+    /\ UNCHANGED <<now, lastW, ub, totalWait, sched, pc, dead, failAt, wake, pend, waits>>
 
 \* read() that reaches the threshold: consume(bytes_seen) admitted
 Admit(s, amt) ==
@@ -104,7 +106,7 @@ Admit(s, amt) ==
     /\ seen' = [seen EXCEPT ![s] = 0]
     /\ Hist(s, amt, "admit")
     /\ last' = [op |-> "read", s |-> s, amt |-> amt, res |-> "admit", retry |-> 0]
-    /\ UNCHANGED <<now, totalWait, sched, pc, dead, wake, pend, waits>>
+    /\ UNCHANGED <<now, totalWait, sched, pc, dead, failAt, wake, pend, waits>>
 
 \* ... or refused: scheduled, the reader sleeps retry_time = total_wait
 LiveQueued == LET RECURSIVE S(_) S(D) == IF D = {} THEN 0 ELSE
@@ -126,12 +128,17 @@ Refuse(s, amt) ==
                                        queued |-> LiveQueued, own |-> a])
                    ELSE waits
        /\ last' = [op |-> "read", s |-> s, amt |-> amt, res |-> "refuse", retry |-> totalWait + a]
-    /\ UNCHANGED <<now, lastW, ub, hist, dead>>
+    /\ UNCHANGED <<now, lastW, ub, hist, dead, failAt>>
 
 \* the sleeper wakes (not before its time, at most Late after it) and its
 \* scheduled request is granted unconditionally
-Wake(s) ==             \* (a stream that failed after its last check of the error is still granted once)
+\* (a stream whose transfer failed is still granted once if the failure came
+\*  after its sleep was over, i.e. after its last check of the error; a failure
+\*  during the wait must make the read raise instead: C13 "a read of a failed
+\*  or cancelled transfer raises that transfer's error instead of waiting on")
+Wake(s) ==
     /\ pc[s] = "sleep" /\ now >= wake[s]
+    /\ dead[s] => failAt[s] >= wake[s]
     /\ Record(sched[s])
     /\ totalWait' = IF totalWait - sched[s] > 0 THEN totalWait - sched[s] ELSE 0
     /\ sched' = Drop(sched, s)
@@ -140,13 +147,14 @@ Wake(s) ==             \* (a stream that failed after its last check of the erro
     /\ Hist(s, pend[s], "granted")
     /\ pend' = [pend EXCEPT ![s] = 0]
     /\ last' = [op |-> "wake", s |-> s, amt |-> sched[s], res |-> "granted", retry |-> 0]
-    /\ UNCHANGED <<now, wake, waits, dead>>
+    /\ UNCHANGED <<now, wake, waits, dead, failAt>>
 
 \* the transfer of a stream fails (any time); the stream notices at its next
 \* check of the error, i.e. before its next consume attempt
 Fail(s) ==
     /\ ~dead[s] /\ pc[s] # "gone"
     /\ dead' = [dead EXCEPT ![s] = TRUE]
+    /\ failAt' = [failAt EXCEPT ![s] = now]
     /\ last' = [op |-> "fail", s |-> s, amt |-> 0, res |-> "abandon", retry |-> 0]
     /\ UNCHANGED <<now, lastW, ub, totalWait, sched, pc, wake, seen, pend, hist, waits>>
 
@@ -160,7 +168,7 @@ Raise(s) ==
        ELSE /\ sched' = Drop(sched, s)
             /\ totalWait' = IF totalWait - sched[s] > 0 THEN totalWait - sched[s] ELSE 0
     /\ last' = [op |-> "raise", s |-> s, amt |-> 0, res |-> "raise", retry |-> 0]
-    /\ UNCHANGED <<now, lastW, ub, wake, seen, pend, hist, waits, dead>>
+    /\ UNCHANGED <<now, lastW, ub, wake, seen, pend, hist, waits, dead, failAt>>
 
 \* time passes; a sleeper is never more than Late overdue
 Tick ==
@@ -168,7 +176,7 @@ Tick ==
     /\ \A s \in Streams : pc[s] = "sleep" => now + 1 <= wake[s] + Late
     /\ now' = now + 1
     /\ last' = [op |-> "tick", s |-> "", amt |-> 0, res |-> "", retry |-> 0]
-    /\ UNCHANGED <<lastW, ub, totalWait, sched, pc, dead, wake, seen, pend, hist, waits>>
+    /\ UNCHANGED <<lastW, ub, totalWait, sched, pc, dead, failAt, wake, seen, pend, hist, waits>>
 
 Next ==
     \/ Tick
